@@ -70,6 +70,12 @@ type TLCResult struct {
 }
 
 func (r *TLCResult) Cleanup() {
+	if os.Getenv("VERIF_KEEP") != "" {
+		if r != nil {
+			fmt.Fprintln(os.Stderr, "kept TLC dir", r.Dir)
+		}
+		return
+	}
 	if r != nil && r.Dir != "" {
 		os.RemoveAll(r.Dir)
 	}
